@@ -1,6 +1,6 @@
 (* Proofs/RangeP.v — lemmas about Model/Range.v (C06).  All proved, no axioms. *)
 From Coq Require Import QArith Qabs Qminmax List Bool Arith Lia Lqa Setoid Morphisms.
-From DV Require Import Base.QVec Run.Verdict Model.Linear Cert.Hull Model.Range.
+From DV Require Import Base.QVec Run.Verdict Model.Linear Cert.Hull Model.Gauss Model.Range.
 Import ListNotations.
 Open Scope Q_scope.
 
@@ -17,7 +17,7 @@ Qed.
 Lemma candidate_sound A b lb ub n idx pat x : candidate A b lb ub n idx pat = Ok (Some x) -> sol_set A b lb ub x.
 Proof.
   intros H. unfold candidate in H. cbv zeta in H.
-  destruct (solveQ _ _) as [sol|]; [|discriminate].
+  destruct (solve_ge _ _) as [sol|]; [|discriminate].
   match type of H with (if ?g then _ else _) = _ => destruct g eqn:G end; [|discriminate].
   injection H as H. subst x.
   apply andb_true_iff in G. destruct G as [G G3].
